@@ -248,6 +248,10 @@ def playback(crate, env, flags, h):
     vecs = re.findall(r"//\s*(.*?)\n\s*vec!\[([^\]]*)\]", body)
     cex = {"harness": h["name"], "values": [{"value": v.strip(), "bytes": b.strip()} for v, b in vecs], "playback_test": body[:3000],
            "replayed_natively": None}
+    if "stubbing" in flags:
+        # kani::stub replacements are not applied by `cargo kani playback`: a native run would execute different code
+        cex["replayed_natively"] = "not attempted: the harness uses kani::stub (stubs are not applied in a native playback run); the concrete values above are Kani's"
+        return cex
     try:
         run_group(["cargo", "kani"] + flags + ["-Z", "concrete-playback", "--concrete-playback=inplace", "--harness", h["name"]], crate, env, h["timeout"] * 2)
         rc2, o2 = run_group(["cargo", "kani", "playback", "-Z", "concrete-playback"] + [f for f in flags if f not in ("-Z", "concrete-playback")] +
